@@ -417,12 +417,18 @@ fn classify(case: &Case, q: &Query) -> String {
 }
 
 pub fn run_twins(case: &Case, obs: &mut Obs, id: &str) -> Verdict {
+    run_twins_with(case, obs, id, vibesql_storage::Database::new(), false)
+}
+
+/// `indexed`: the second twin (for C16 a database whose indexes are spilled to disk).
+/// `both_indexed`: index DDL is applied to both twins (C16) instead of the second only (C02).
+pub fn run_twins_with(case: &Case, obs: &mut Obs, id: &str, indexed: vibesql_storage::Database, both_indexed: bool) -> Verdict {
     if let Some(r) = &case.raw {
         return run_raw(r, obs, id);
     }
     let t = &case.table;
     let mut plain = vibesql_storage::Database::new();
-    let mut indexed = vibesql_storage::Database::new();
+    let mut indexed = indexed;
     for st in t.setup_sql() {
         for db in [&mut plain, &mut indexed] {
             if let Err(e) = engine::exec(db, &st) {
@@ -435,9 +441,19 @@ pub fn run_twins(case: &Case, obs: &mut Obs, id: &str) -> Verdict {
         let sql = op_sql(op, t, &case.indexes);
         let is_index_ddl = matches!(op, Op::CreateIndex(_) | Op::DropIndex(_) | Op::Analyze);
         let ri = engine::exec(&mut indexed, &sql);
-        if is_index_ddl {
+        if is_index_ddl && !both_indexed {
             log.push(format!("{} -- indexed twin only: {}", sql, if ri.is_ok() { "ok".to_string() } else { ri.as_ref().unwrap_err().text() }));
             continue;
+        }
+        if both_indexed {
+            // which backend do the second twin's indexes use right now?
+            for ix in &case.indexes {
+                match indexed.get_index_data(&ix.name) {
+                    Some(vibesql_storage::database::IndexData::DiskBacked { .. }) => obs.class("statement_with_disk_backed_index"),
+                    Some(vibesql_storage::database::IndexData::InMemory { .. }) => obs.class("statement_with_in_memory_index"),
+                    None => {}
+                }
+            }
         }
         let rp = engine::exec(&mut plain, &sql);
         log.push(sql.clone());
